@@ -33,6 +33,7 @@ func (e *Engine) scan() {
 		e.translate(fn)
 	}
 	e.scanMode = false
+	e.closeFrameRules()
 	e.errors = nil
 	e.wsCache = map[*ssa.Function]map[string]bool{}
 	e.defaults = map[string]int{}
